@@ -297,6 +297,29 @@ def stream_and_file(ctx, prog):
     return n
 
 
+def errs_only(f, sy):
+    """return blocks that can only return an error (the `?` exits)"""
+    out = set()
+    for r in f.return_blocks():
+        back = errpure_blocks_to(f, r)
+        oks = [b for b in back for st in f.blocks[b]["stmts"] if st["s"] == "assign" and st["lhs"]["l"] == 0 and st["rv"]["r"] == "agg" and st["rv"]["kind"].get("variant") == "Ok"]
+        if not oks:
+            out.add(r)
+    return out
+
+
+def errpure_blocks_to(f, target):
+    back = {target}
+    st = [target]
+    while st:
+        n = st.pop()
+        for p in f.preds.get(n, []):
+            if p not in back:
+                back.add(p)
+                st.append(p)
+    return back & f.live
+
+
 def buf(ctx, prog):
     doc(ctx)
     f = prog.fn("generate_easy::hash_buf")
@@ -319,11 +342,16 @@ def buf(ctx, prog):
         ok = ok and f.dominates(si, ui) and f.dominates(ui, fi)
         # Ok value is finalize().unwrap()
         okv = False
+        n_ok = 0
         for i, j, s in f.stmts():
             if s["s"] == "assign" and s["lhs"]["l"] == 0 and s["rv"]["r"] == "agg" and s["rv"]["kind"].get("variant") == "Ok":
+                n_ok += 1
                 e = strip(sy.operand(s["rv"]["ops"][0]))
                 okv = e[0] == "call" and e[1].endswith("unwrap") and strip(e[2][0])[0] == "call" and strip(e[2][0])[3] == fi
-        ok = ok and okv
+        # the ONLY Ok (no answer built without the generator, e.g. for `small` buffers), and the three steps lie on every path to it
+        ok = ok and okv and n_ok == 1
+        if n_ok != 1:
+            why += "; %d Ok values built" % n_ok
     ctx.ob(R, "hash_buf: declares buffer.len(), feeds the whole buffer once, returns finalize() of the same generator", ok, why, f.loc())
     return len(fd)
 
